@@ -212,6 +212,22 @@ theorem C20_partial_engine {cc : CharClasses} (hw : FoldWordAll cc) {rx : Rx} {p
     (fuel : Nat) : L.run cc.fold rx b fuel = L.run cc.fold rx a fuel :=
   C20_partial (C20_engine_terminals hw h) hws hab fuel
 
+open Re in
+/-- **Base types.**  For the ASCII tables every base-type regex of textX except BOOL (the generated `ID`, `INT`,
+`FLOAT`, `STRICTFLOAT`, `STRING`) satisfies `RxFoldInv` when run by the engine — proved, not assumed; BOOL's
+cased plain literals are exactly what fails (`Re.not_foldInvR_chr_T`, known finding `C20-bool-case-sensitive`). -/
+theorem C20_basetypes_ascii (r : R)
+    (hr : r ∈ [Gen.Regexes.ID, Gen.Regexes.INT, Gen.Regexes.FLOAT, Gen.Regexes.STRICTFLOAT, Gen.Regexes.STRING])
+    {a b : Array Char} (h : FoldEq asciiCC.fold a b) (p : Nat) : reRx asciiCC r a p = reRx asciiCC r b p := by
+  apply reRx_foldInv asciiCC r _ h p
+  simp only [List.mem_cons, List.not_mem_nil, or_false] at hr
+  rcases hr with rfl | rfl | rfl | rfl | rfl
+  · exact foldInvR_ID_ascii
+  · exact foldInvR_INT_ascii
+  · exact foldInvR_FLOAT_ascii
+  · exact foldInvR_STRICTFLOAT_ascii
+  · exact foldInvR_STRING_ascii
+
 /-! ### flags and parse composed: `AllIc` follows from `ignore_case=True` -/
 
 /-- the token of the parser model a `Match` object stands for -/
